@@ -122,6 +122,15 @@ func c27FsmShape() int {
 	return zzsym.Choice("shape", 2)
 }
 
+// c27FsmBigShape: the long encodings (runtime meta, membership and channel-latest batches) are truncated
+// at one shape (all variable-length fields 1 byte) in quick, 0..3 in thorough.
+func c27FsmBigShape() int {
+	if zzsym.Thorough() {
+		return zzsym.Choice("shape", 4)
+	}
+	return 1
+}
+
 func c27FsmU64s(name string, n int) []uint64 {
 	if n == 0 {
 		return nil
@@ -282,14 +291,18 @@ func c27FsmRuntimeMeta(idLen, replicas, isr, tokenLen int) metadb.ChannelRuntime
 // the decoded value is compared with the canonical form of the input. DirectoryGeneration is not a
 // field of this command's wire format and is not compared.
 func Harness_C27_FsmRuntimeMeta() {
-	isrMax := 1
-	strLen := c27FsmLen("str.len") // ChannelID and WriteFenceToken share one length in quick
-	tokenLen := strLen
+	// quick: either the strings vary (ChannelID and WriteFenceToken share one length 0..2; one replica, one
+	// ISR member) or the sets vary (replicas 0..2, ISR 0..1; strings of 1); thorough: all independent
+	strLen, tokenLen, replicas, isr := 1, 1, 1, 1
 	if zzsym.Thorough() {
-		isrMax = 3
-		tokenLen = c27FsmLen("token.len")
+		strLen, tokenLen, replicas, isr = c27FsmLen("str.len"), c27FsmLen("token.len"), c27FsmLen("replicas.len"), zzsym.Choice("isr.len", 4)
+	} else if zzsym.Bool("sets") {
+		replicas, isr = zzsym.Choice("replicas.len", 3), zzsym.Choice("isr.len", 2)
+	} else {
+		strLen = zzsym.Choice("str.len", 3)
+		tokenLen = strLen
 	}
-	in := c27FsmRuntimeMeta(strLen, c27FsmLen("replicas.len"), zzsym.Choice("isr.len", isrMax+1), tokenLen)
+	in := c27FsmRuntimeMeta(strLen, replicas, isr, tokenLen)
 	want := metadb.NormalizeChannelRuntimeMeta(in)
 	cmd, err := decodeCommand(EncodeUpsertChannelRuntimeMetaCommand(in))
 	zzsym.Reach("upsert-runtime-meta")
@@ -319,7 +332,7 @@ func Harness_C27_FsmRuntimeMeta() {
 // advance commands. Upsert: required fields are the first 11 (through LeaseUntilMS), the later ones are
 // optional; delete and retention advance: every field is required, so every strict prefix is rejected.
 func Harness_C27_FsmRuntimeMetaTruncated() {
-	s := c27FsmShape()
+	s := c27FsmBigShape()
 	switch zzsym.Choice("kind", 3) {
 	case 0:
 		n := s
@@ -631,7 +644,7 @@ func Harness_C27_FsmMemberships() {
 // end of the single entry TLV); two entries: accepted exactly at the boundary after the first entry.
 // The Tombstone flags are fixed per case (they only select the encoded 0/1 value).
 func Harness_C27_FsmMembershipsTruncated() {
-	s := c27FsmShape()
+	s := c27FsmBigShape()
 	switch zzsym.Choice("case", 4) {
 	case 0:
 		m := c27FsmMembership(s, s)
@@ -771,7 +784,7 @@ func Harness_C27_FsmChannelLatestBatch() {
 // Harness_C27_FsmChannelLatestTruncated: strict prefixes of a single latest command (all rejected) and
 // of 1..2 item batches (accepted exactly after a complete item).
 func Harness_C27_FsmChannelLatestTruncated() {
-	s := c27FsmShape()
+	s := c27FsmBigShape()
 	if zzsym.Bool("batch") {
 		n := 1 + zzsym.Choice("items", 2)
 		var items []ChannelLatestBatchItem
@@ -792,9 +805,12 @@ func c27FsmGarbage(types []uint8, quick, thorough int) {
 	if zzsym.Thorough() {
 		max = thorough
 	}
+	k := zzsym.Choice("type", len(types))
+	if !zzsym.Thorough() && k > 0 {
+		max = 12 // quick: only the first listed decoder gets inputs long enough for an 8-byte value field
+	}
 	n := zzsym.Choice("len", max+1)
 	data := zzsym.Bytes("data", n)
-	k := zzsym.Choice("type", len(types))
 	if n >= 2 {
 		// the decoder under test; the version byte stays arbitrary
 		zzsym.Assume(data[1] == types[k])
@@ -813,8 +829,8 @@ func c27FsmGarbage(types []uint8, quick, thorough int) {
 }
 
 // Harness_C27_FsmGarbage: arbitrary bytes into representative decoders of command.go: user (no required
-// fields), delete-runtime-meta (required fields), channel-latest batch (two nesting levels), noop (pure TLV
-// walk); thorough adds every other decoder registered from command.go except the subscriber pair.
+// fields), channel-latest batch (required fields, two nesting levels), noop (pure TLV walk); thorough adds
+// every other decoder registered from command.go except the subscriber pair.
 func Harness_C27_FsmGarbage() {
 	if zzsym.Thorough() {
 		c27FsmGarbage([]uint8{cmdTypeUpsertUser, cmdTypeDeleteChannelRuntimeMeta, cmdTypeUpsertChannelLatestBatch, cmdTypeNoop,
@@ -822,10 +838,10 @@ func Harness_C27_FsmGarbage() {
 			cmdTypeUpsertChannelRuntimeMeta, cmdTypeAdvanceChannelRetention, cmdTypeUpsertUserChannelMemberships, cmdTypeDeleteUserChannelMemberships,
 			cmdTypeAdvanceUserChannelMembershipReadSeq, cmdTypeHideUserChannelMembership, cmdTypeActivateUserChannelMembership,
 			cmdTypeUpsertUserCMDChannelMemberships, cmdTypeAdvanceUserCMDChannelMembershipAcks, cmdTypeTombstoneUserCMDChannelMemberships,
-			cmdTypeUpsertChannelLatest}, 16, 28)
+			cmdTypeUpsertChannelLatest}, 16, 20)
 		return
 	}
-	c27FsmGarbage([]uint8{cmdTypeUpsertUser, cmdTypeDeleteChannelRuntimeMeta, cmdTypeUpsertChannelLatestBatch, cmdTypeNoop}, 16, 28)
+	c27FsmGarbage([]uint8{cmdTypeUpsertUser, cmdTypeUpsertChannelLatestBatch, cmdTypeNoop}, 16, 28)
 }
 
 // Harness_C27_FsmGarbageSubscribers: the add/remove subscribers decoders on (a) arbitrary short bytes
@@ -908,4 +924,18 @@ func Harness_C27_FsmReadTLV() {
 	zzsym.Assert(used == tlvOverhead+len(value) && used <= n, "accepted TLV consumes more than the input")
 	zzsym.Assert(uint64(len(value)) == uint64(data[1])<<24|uint64(data[2])<<16|uint64(data[3])<<8|uint64(data[4]), "accepted TLV value length differs from the declared length")
 	zzsym.Observe("tlv", uint64(tag), uint64(used))
+}
+
+// Harness_C27_FsmSimple: the user, device, channel and retention/delete round trips as one entry.
+func Harness_C27_FsmSimple() {
+	switch zzsym.Choice("which", 4) {
+	case 0:
+		Harness_C27_FsmUser()
+	case 1:
+		Harness_C27_FsmDevice()
+	case 2:
+		Harness_C27_FsmChannel()
+	default:
+		Harness_C27_FsmRetentionAndDelete()
+	}
 }
